@@ -675,26 +675,16 @@ fn partial_liquidation(
     )
     .unwrap();
 
-    let msg: SubMsg = if current_notional > position.notional {
-        swap_input(
-            &vamm,
-            direction_to_side(position.direction.clone()),
-            position.notional,
-            Uint128::zero(),
-            true,
-            PARTIAL_LIQUIDATION_REPLY_ID,
-        )
-        .unwrap()
-    } else {
-        swap_output(
-            &vamm,
-            direction_to_side(position.direction),
-            partial_position_size,
-            partial_asset_limit,
-            PARTIAL_LIQUIDATION_REPLY_ID,
-        )
-        .unwrap()
-    };
+    // the liquidated part is always swapped out of the vamm: the reply accounts for the base
+    // amount of exactly this swap, so the engine's size and the vamm's net position stay equal
+    let msg: SubMsg = swap_output(
+        &vamm,
+        direction_to_side(position.direction),
+        partial_position_size,
+        partial_asset_limit,
+        PARTIAL_LIQUIDATION_REPLY_ID,
+    )
+    .unwrap();
 
     Ok(msg)
 }
